@@ -21,8 +21,10 @@ use quill::tree::names::Namespace;
 use crate::gen_quill::*;
 use crate::proj_quill::*;
 
-fn res_s<T: std::fmt::Display>(r: Result<T>) -> Value {
-	match r { Ok(x) => json!({"ok": true, "v": x.to_string()}), Err(_) => json!({"ok": false, "v": []}) }
+/// exact text of a name or descriptor (Display would turn an unpaired surrogate into U+FFFD)
+fn ex<T: AsRef<java_string::JavaStr>>(x: &T) -> String { js_out(x.as_ref()) }
+fn res_s<T: AsRef<java_string::JavaStr>>(r: Result<T>) -> Value {
+	match r { Ok(x) => json!({"ok": true, "v": ex(&x)}), Err(_) => json!({"ok": false, "v": []}) }
 }
 
 fn prov(v: &Value) -> Result<JarSuperProv> {
@@ -48,7 +50,7 @@ fn run<const N: usize>(v: &Value) -> Result<Value> {
 			Ok(match v["kind"].as_str() {
 				Some("f") => res_s(r.map_field_desc(&FieldDescriptor::try_from(d)?)),
 				Some("m") => res_s(r.map_method_desc(&MethodDescriptor::try_from(d)?)),
-				Some("r") => res_s(r.map_return_desc(&ReturnDescriptor::try_from(d)?).map(|x| x.as_inner().to_string())),
+				Some("r") => res_s(r.map_return_desc(&ReturnDescriptor::try_from(d)?)),
 				k => bail!("kind {k:?}"),
 			})
 		},
@@ -60,7 +62,7 @@ fn run<const N: usize>(v: &Value) -> Result<Value> {
 			if v["back"].as_array().map(|a| !a.is_empty()).unwrap_or(false) {
 				if let Ok(a) = &ans {
 					let rb = m.remapper_a(t, f)?;
-					back = match rb.map_class_any(a) { Ok(x) => json!([x.to_string()]), Err(_) => json!(["<error>"]) };
+					back = match rb.map_class_any(a) { Ok(x) => json!([ex(&x)]), Err(_) => json!(["<error>"]) };
 				}
 			}
 			Ok(json!({"ans": res_s(ans), "back": back}))
@@ -73,9 +75,9 @@ fn run<const N: usize>(v: &Value) -> Result<Value> {
 			let desc = js(v["desc"].as_str().context("desc")?);
 			let is_m = v["kind"] == "m";
 			let ans: Result<(String, String)> = if is_m {
-				r.map_method(&owner, &MethodName::try_from(name)?, &MethodDescriptor::try_from(desc)?).map(|x| (x.name.to_string(), x.desc.to_string()))
+				r.map_method(&owner, &MethodName::try_from(name)?, &MethodDescriptor::try_from(desc)?).map(|x| (ex(&x.name), ex(&x.desc)))
 			} else {
-				r.map_field(&owner, &FieldName::try_from(name)?, &FieldDescriptor::try_from(desc)?).map(|x| (x.name.to_string(), x.desc.to_string()))
+				r.map_field(&owner, &FieldName::try_from(name)?, &FieldDescriptor::try_from(desc)?).map(|x| (ex(&x.name), ex(&x.desc)))
 			};
 			let mut back = json!([]);
 			if v["rt"] == json!(true) {
@@ -86,9 +88,9 @@ fn run<const N: usize>(v: &Value) -> Result<Value> {
 					let rb = m.remapper_b(t, f, &p2)?;
 					let o2 = ra.map_class(&owner)?;
 					let b: Result<(String, String)> = if is_m {
-						rb.map_method(&o2, &MethodName::try_from(js(n2))?, &MethodDescriptor::try_from(js(d2))?).map(|x| (x.name.to_string(), x.desc.to_string()))
+						rb.map_method(&o2, &MethodName::try_from(js(n2))?, &MethodDescriptor::try_from(js(d2))?).map(|x| (ex(&x.name), ex(&x.desc)))
 					} else {
-						rb.map_field(&o2, &FieldName::try_from(js(n2))?, &FieldDescriptor::try_from(js(d2))?).map(|x| (x.name.to_string(), x.desc.to_string()))
+						rb.map_field(&o2, &FieldName::try_from(js(n2))?, &FieldDescriptor::try_from(js(d2))?).map(|x| (ex(&x.name), ex(&x.desc)))
 					};
 					back = match b { Ok((n, d)) => json!([n, d]), Err(_) => json!(["<error>", ""]) };
 				}
